@@ -111,7 +111,7 @@ def make_hooks(plan):
 
 def _uid_of(step_name):
     parts = step_name.split()
-    if parts and parts[0] == "async":
+    if parts and parts[0] in ("async", "asynct"):
         parts = parts[1:]
     if len(parts) >= 2 and parts[0] == "step":
         return parts[1]
@@ -184,6 +184,10 @@ def step_definitions(plan):
         enter(context, uid)
         raise RuntimeError(message(uid, "step %s raises" % uid))
 
+    def do_raise_timeout(context, uid):
+        enter(context, uid)
+        raise TimeoutError(message(uid, "step %s times out" % uid))
+
     def do_pending(context, uid):
         enter(context, uid)
         raise StepNotImplementedError("step %s pends" % uid)
@@ -203,7 +207,8 @@ def step_definitions(plan):
     def do_convert(context, uid, n):
         enter(context, uid)     # must never be reached: conversion of n fails
 
-    by_outcome = {"pass": do_pass, "fail": do_fail, "raise": do_raise, "pending": do_pending,
+    by_outcome = {"pass": do_pass, "fail": do_fail, "raise": do_raise, "raise_timeout": do_raise_timeout,
+                  "pending": do_pending,
                   "skip": do_skip, "interrupt": do_interrupt}
 
     def do_act(context, uid):
@@ -237,7 +242,7 @@ def step_definitions(plan):
         plan.notes.append({"kind": "nest", "uid": uid, "before": before, "after": after,
                            "raised": raised})
 
-    table = [("passes", do_pass), ("fails", do_fail), ("raises", do_raise),
+    table = [("passes", do_pass), ("fails", do_fail), ("raises", do_raise), ("times out", do_raise_timeout),
              ("pends", do_pending), ("skips", do_skip), ("interrupts", do_interrupt),
              ("acts", do_act), ("nests", do_nest), ("aborts", do_abort)]
     defs = []
@@ -255,16 +260,22 @@ def step_definitions(plan):
         defs.append((u"step {uid:w} %s with {tail}" % phrase, with_tail(func)))
 
     # -- async twins
-    def make_async(func):
-        @async_run_until_complete
-        async def astep(context, uid):
-            func(context, uid)
+    def make_async(func, timeout=None):
+        if timeout is None:
+            @async_run_until_complete
+            async def astep(context, uid):
+                func(context, uid)
+        else:
+            @async_run_until_complete(timeout=timeout)
+            async def astep(context, uid):
+                func(context, uid)
         astep.__name__ = "async_" + func.__name__
         return astep
     for phrase, func in table:
         if func is do_interrupt:
             continue
         defs.append((u"async step {uid:w} %s" % phrase, make_async(func)))
+        defs.append((u"asynct step {uid:w} %s" % phrase, make_async(func, timeout=30)))
     return defs
 
 
